@@ -181,26 +181,26 @@ impl Hist {
             }
             T::CatL(v) => {
                 let xs: Vec<RegLan> = v.iter().map(|x| self.build(s, x)).collect();
-                let r = both!(m => m.concat_list(xs.clone()), smt::re_concat_list(xs.clone()));
+                let r = both!(m => m.concat_list(crate::terms::listy(xs.clone())), smt::re_concat_list(crate::terms::listy(xs.clone())));
                 self.log_mk(both!(_m => "concat_list", "re_concat_list"), &xs, &[], r, t);
                 r
             }
             T::AltL(v) => {
                 let xs: Vec<RegLan> = v.iter().map(|x| self.build(s, x)).collect();
-                let r = both!(m => m.union_list(xs.clone()), smt::re_union_list(xs.clone()));
+                let r = both!(m => m.union_list(crate::terms::listy(xs.clone())), smt::re_union_list(crate::terms::listy(xs.clone())));
                 self.log_mk(both!(_m => "union_list", "re_union_list"), &xs, &[], r, t);
                 r
             }
             T::AndL(v) => {
                 let xs: Vec<RegLan> = v.iter().map(|x| self.build(s, x)).collect();
-                let r = both!(m => m.inter_list(xs.clone()), smt::re_inter_list(xs.clone()));
+                let r = both!(m => m.inter_list(crate::terms::listy(xs.clone())), smt::re_inter_list(crate::terms::listy(xs.clone())));
                 self.log_mk(both!(_m => "inter_list", "re_inter_list"), &xs, &[], r, t);
                 r
             }
             T::DiffL(a, v) => {
                 let x = self.build(s, a);
                 let xs: Vec<RegLan> = v.iter().map(|y| self.build(s, y)).collect();
-                let r = both!(m => m.diff_list(x, xs.clone()), smt::re_diff_list(x, xs.clone()));
+                let r = both!(m => m.diff_list(x, crate::terms::listy(xs.clone())), smt::re_diff_list(x, crate::terms::listy(xs.clone())));
                 let mut all = vec![x];
                 all.extend(xs);
                 self.log_mk(both!(_m => "diff_list", "re_diff_list"), &all, &[], r, t);
